@@ -12,7 +12,8 @@ type C17Case struct {
 	Launch      string   `json:"launch"`  // cmd | runner
 	UserEnv     []string `json:"userEnv"` // entries the user put into Cmd.Env
 	UserEnvName string   `json:"userEnvName,omitempty"`
-	Ambient     []string `json:"ambient"` // variables present in the host's own environment
+	UserEnvHost bool     `json:"userEnvHost,omitempty"` // Cmd.Env = a copy of the host's own environment (the `append(os.Environ(), ...)` idiom)
+	Ambient     []string `json:"ambient"`               // variables present in the host's own environment
 	AmbientName string   `json:"ambientName"`
 	E2E         bool     `json:"e2e"` // launch a real serving plugin and use it
 	E2EProto    string   `json:"e2eProto"`
